@@ -53,6 +53,7 @@ func init() {
 			{ID: "C11-R27", Title: "defaults do not replace what the host gave (shared with C08-R33)", Floor: 1, Run: defaultsDoNotReplaceWhatTheHostGave},
 			{ID: "C11-R28", Title: "removals come last", Floor: 1, Run: removalsComeLast},
 			{ID: "C11-R29", Title: "a module that is made with members points their back-reference at itself", Floor: 2, Run: membersPointAtTheModuleTheyAreIn},
+			{ID: "C11-R30", Title: "an option of the VM sets its field whatever the value is (shared with C14-R26)", Floor: 3, Run: vmOptionsSetWhatTheyAreGiven},
 		},
 	})
 }
